@@ -15,6 +15,7 @@ import (
 	"github.com/flant/shell-operator/pkg/task"
 	"github.com/flant/shell-operator/pkg/utils/exponential_backoff"
 	"github.com/flant/shell-operator/pkg/utils/measure"
+	"github.com/flant/shell-operator/pkg/utils/verifsched"
 )
 
 /*
@@ -424,6 +425,7 @@ func (q *TaskQueue) Start() {
 		var sleepDelay time.Duration
 		for {
 			q.debugf("queue %s: wait for task, delay %d", q.Name, sleepDelay)
+			verifsched.Point("queue.loop", q.Name)
 			t := q.waitForTask(sleepDelay)
 			if t == nil {
 				q.SetStatus("stop")
@@ -439,6 +441,7 @@ func (q *TaskQueue) Start() {
 			var nextSleepDelay time.Duration
 			q.SetStatus("run first task")
 			taskRes := q.Handler(t)
+			verifsched.Point("queue.afterHandler", q.Name)
 
 			// Check Done channel after long-running operation.
 			select {
@@ -510,6 +513,7 @@ func (q *TaskQueue) waitForTask(sleepDelay time.Duration) task.Task {
 		return nil
 	default:
 	}
+	verifsched.Point("queue.wait.afterCtxCheck", q.Name)
 
 	// Shortcut: return the first task if the queue is not empty and delay is not required.
 	if !q.IsEmpty() && sleepDelay == 0 {
@@ -545,6 +549,7 @@ func (q *TaskQueue) waitForTask(sleepDelay time.Duration) task.Task {
 	// Or, delay can be canceled to handle new head task immediately.
 	for {
 		checkTask := false
+		verifsched.Point("queue.wait.beforeSelect", q.Name)
 		select {
 		case <-q.ctx.Done():
 			// Queue is stopped.
